@@ -3,6 +3,15 @@ use thiserror::Error as ThisError;
 
 #[derive(Serialize, Deserialize, PartialEq, Eq, Clone, ThisError, Debug)]
 pub enum HttpError {
+    #[error("URL parse error: {0}")]
+    Url(String),
+    #[error("IO error: {0}")]
+    Io(String),
+    #[error("Timeout")]
+    Timeout,
+    // The variants which are not part of the protocol come last: serde numbers the variants
+    // it skips when serializing but not when deserializing (or tracing the type for type
+    // generation), so a skipped variant shifts the wire index of every variant after it.
     #[error("HTTP error {code}: {message}")]
     #[serde(skip)]
     Http {
@@ -13,12 +22,6 @@ pub enum HttpError {
     #[error("JSON serialisation error: {0}")]
     #[serde(skip)]
     Json(String),
-    #[error("URL parse error: {0}")]
-    Url(String),
-    #[error("IO error: {0}")]
-    Io(String),
-    #[error("Timeout")]
-    Timeout,
 }
 
 impl From<http_types::Error> for HttpError {
